@@ -182,7 +182,7 @@ fn cases(seed: u64, doc: &str, vi: u64, len: usize, tier: Tier) -> Vec<(Src, Scr
 }
 
 pub fn n_units(tier: Tier) -> u64 {
-    ALL_DOCS.len() as u64 * values_per_doc(tier, 40, 600)
+    n_docs() * values_per_doc(tier, 40, 600)
 }
 
 struct RunUnit<'a> {
